@@ -98,6 +98,27 @@ def make_post(filt):
                     return run.violate(mon, f"{filt}-weight", f"{g['chromosome']}:{g['start']}: weight {g['weight']} != sum {w['weight']}", wit)
                 if abs(g["log2"] - w["log2"]) > 1e-9 * max(1, abs(w["log2"])):
                     return run.violate(mon, f"{filt}-log2", f"{g['chromosome']}:{g['start']}: log2 {g['log2']} != weighted mean {w['log2']}", wit)
+        if nan_alleles and filt != "ampdel":
+            # Missing allele-specific cn: two neighbours with the same level whose allele-specific cn is missing in
+            # both share the level (nothing distinguishes them) and must merge; neighbours that differ in the filter's
+            # level, or in known allele-specific cn, must not; missing next to known is left open.
+            owner = {}
+            for j, g in enumerate(got):
+                for r in recs:
+                    if r["chromosome"] == g["chromosome"] and g["start"] <= r["start"] and r["end"] <= g["end"]:
+                        owner.setdefault((r["chromosome"], r["start"], r["end"]), j)
+            for a, b in zip(recs, recs[1:]):
+                if a["chromosome"] != b["chromosome"]:
+                    continue
+                ja, jb = owner.get((a["chromosome"], a["start"], a["end"])), owner.get((b["chromosome"], b["start"], b["end"]))
+                if ja is None or jb is None:
+                    continue
+                same_level = level_of(filt, a) == level_of(filt, b)
+                na, nb = _isnan(a["cn1"]) or _isnan(a["cn2"]), _isnan(b["cn1"]) or _isnan(b["cn2"])
+                if same_level and na and nb and ja != jb:
+                    return run.violate(mon, f"{filt}-run-not-maximal-missing-alleles", f"{a['chromosome']}:{a['start']} and :{b['start']} share the level and both lack allele-specific cn but were not merged", wit)
+                if ja == jb and (not same_level or (not na and not nb and (a["cn1"], a["cn2"]) != (b["cn1"], b["cn2"]))):
+                    return run.violate(mon, f"{filt}-merged-across-level-change", f"{a['chromosome']}:{a['start']} and :{b['start']} differ in level but were merged", wit)
         # universal conservation clauses (also with missing allele-specific cn)
         if filt != "ampdel":
             tp_in = sum(r["probes"] for r in recs) if "probes" in cols else len(recs)
